@@ -52,6 +52,11 @@ def generate(ck):
             d["shift"] = float(rng.choice([-1, 1]) * 10.0 ** rng.uniform(-3, 6))
         d["bad_len"] = int(rng.choice([-1, 1, 2, -2, 7]))
         d["schedule"] = None
+        if i % 7 == 5:
+            # round-number grids and node counts with decimal shifts (neither exact in binary)
+            d["grid"] = {"family": "decimal-arange", "nt": 41, "t_end": 1.0, "seed": int(rng.integers(0, 2**31))}
+            d["nx"], d["nx_type"] = int(rng.choice([11, 30, 50, 101])), "int"
+            d["dyadic"], d["shift"] = False, float(rng.choice([0.1, 3.0, -7.3, 0.7]))
         descs.append(d)
     return descs
 
